@@ -380,7 +380,7 @@ def run(ctx):
     for kind in KINDS:
         for threads in (2, 3):
             for variant in range(ctx.pick(2, 6)):
-                tasks.append((kind, threads, variant, ctx.pick(400, 6000)))
+                tasks.append((kind, threads, variant, ctx.pick(1500, 20000)))
     ctx.pmap(shard_dfs, tasks)
     ctx.pmap(shard_random, [(ctx.shard_seed(i), ctx.pick(60, 1500), ctx.pick(25, 500)) for i in range(16)])
 
